@@ -14,7 +14,7 @@ import (
 type c10Params struct {
 	Calls    []callSpec // one per caller; all outstanding before the peer answers
 	Late     bool       // one more caller enters Rpc concurrently with the failure
-	Fault    string     // cut | writefail | garbage | undersize | oversize | unknowntag | unmount | peerclose
+	Fault    string     // cut | timeout | writefail | garbage | undersize | oversize | unknowntag | unmount | peerclose
 	At       int        // cut/writefail: stream offset; frame faults: index of the reply before which the bad frame is placed
 	SameSeg  bool       // bad frame in the same write as the surrounding replies
 	OneWrite bool
@@ -41,6 +41,9 @@ func (p c10Params) name() string {
 	}
 	return fmt.Sprintf("fail[%s] late=%v fault=%s at=%d sameseg=%v onewrite=%v dotu=%v%s", strings.Join(cs, ","), p.Late, p.Fault, p.At, p.SameSeg, p.OneWrite, p.Dotu, st)
 }
+
+// c10Horizon: the executions of these scenarios take a few thousand steps
+const c10Horizon = 200000
 
 func c10Scenario(p c10Params) Scenario {
 	var results []*callRes
@@ -102,6 +105,8 @@ func c10Scenario(p c10Params) Scenario {
 			peer.Kinds[p.At] = "wrongtype"
 		case "peerclose":
 			peer.CloseAfterBatch = true
+		case "timeout":
+			ce.TimeoutIncomingAt(p.At)
 		case "cut":
 			ce.CutIncomingAt(p.At)
 		case "writefail":
@@ -142,6 +147,9 @@ func c10Scenario(p c10Params) Scenario {
 	}
 	check := stdCheck("C10", func(x *vs.Exec) *Viol {
 		detail := map[string]any{"requests_seen_by_peer": fmt.Sprint(peer.Seen), "parked": x.Parked}
+		if x.HitHorizon {
+			return &Viol{Sig: "C10/runs-on-for-ever-after-failure", Msg: fmt.Sprintf("after the connection failed the client keeps running without ever failing its calls (step horizon of %d reached; parked: %v)", c10Horizon, x.Parked), Detail: detail}
+		}
 		for _, g := range x.Parked {
 			if g.Site == "caller" {
 				return &Viol{Sig: "C10/call-blocked-forever/" + g.Op, Msg: fmt.Sprintf("a caller is blocked for ever in %s after the connection failed (parked: %v)", g.Op, x.Parked), Detail: detail}
@@ -176,7 +184,7 @@ func c10Scenario(p c10Params) Scenario {
 			end, answered := peer.ReplyEnds[r.spec.Fid]
 			complete := sent && answered
 			switch p.Fault {
-			case "cut":
+			case "cut", "timeout":
 				complete = complete && end <= p.At
 			case "garbage", "undersize", "oversize", "unknowntag":
 				complete = complete && end <= peer.InjectedAt
@@ -227,7 +235,7 @@ func c10Scenario(p c10Params) Scenario {
 		}
 		return nil
 	}, nil)
-	return vsScenario(&VsSpec{Name: p.name(), Body: body, Check: check, P: p.P, Delay: true, Sample: func() any {
+	return vsScenario(&VsSpec{Name: p.name(), Body: body, Check: check, P: p.P, Delay: true, Horizon: c10Horizon, Livelock: true, Sample: func() any {
 		var rs []string
 		for _, r := range results {
 			if r != nil {
@@ -321,6 +329,10 @@ func c10Scenarios(tier string) []Scenario {
 		out = append(out, c10Scenario(c10Params{Calls: three, Fault: "peerclose", Late: lateC, P: D + 1}))
 		out = append(out, c10Scenario(c10Params{Calls: nil, Fault: "cut", At: 0, Late: lateC, P: D + 2}))
 		out = append(out, c10Scenario(c10Params{Calls: three[:1], Fault: "cut", At: 0, Late: lateC, Dotu: true, P: D + 2}))
+	}
+	// the transport reports its failure as a timeout (the application set a read deadline)
+	for _, off := range []int{0, 5, 27, 28, 60} {
+		out = append(out, c10Scenario(c10Params{Calls: two, Fault: "timeout", At: off, OneWrite: off%2 == 0, Dotu: off%3 == 0, Late: off%5 == 0, P: D}))
 	}
 	// the connection fails some time after a call went wrong on the client's side alone
 	for i, pre := range []string{"oversize-request", "pack-fails"} {
